@@ -35,6 +35,7 @@ type hostileScn struct {
 	Cut      int      `json:"cut"`      // cut: truncate our stream at this offset
 	Only     bool     `json:"only"`     // argline: Args are the ONLY argument lines (nothing of the valid request)
 	Frame    int      `json:"frame"`    // bigframe (client): one data frame of this many bytes, all delivered
+	Progress bool     `json:"progress"` // the victim is asked to display progress (client: --progress; daemon: a --progress argument line)
 	NoServer bool     `json:"noserver"` // argline: the valid request WITHOUT its "--server" line (a hand-written client)
 	Field2   string   `json:"field2"`   // pair mutation: a second field of the same header damaged as well
 	Class2   string   `json:"class2"`
@@ -307,12 +308,18 @@ func hostileHandler(w *workerCtx, line []byte) (any, error) {
 		var script []byte
 		var hit bool
 		if s.Victim == "daemon-sender" {
+			if s.Progress {
+				s.Args = append(append([]string{}, s.Args...), "--progress")
+			}
 			fs := dropServer(daemonSenderScript(fdata, s.Args, s.Only), s.NoServer)
 			script, hit, _ = serialise(preDamage(fs, s.Field2, s.Class2, rnd), s.Field, s.Class, rnd)
 			script = applyNoise(script, &s, rnd)
 			a.Write(script)
 		} else {
 			// two stages: the trailer of the uploaded file needs the daemon's seed
+			if s.Progress {
+				s.Args = append(append([]string{}, s.Args...), "--progress")
+			}
 			head := dropServer(daemonReceiverHead(s.Args), s.NoServer)
 			hb, hit1, cut := serialise(preDamage(head, s.Field2, s.Class2, rnd), s.Field, s.Class, rnd)
 			a.Write(hb)
@@ -355,7 +362,18 @@ func hostileHandler(w *workerCtx, line []byte) (any, error) {
 		obs.NextOK = canonicalPull(srv) == nil
 	case "client":
 		a, b := xport.Conn(-1, -1, nil) // a: client end, b: our (server) end
-		cl, err := rsyncclient.New([]string{"-rlto"}, rsyncclient.DontRestrict(), rsyncclient.WithStderr(io.Discard))
+		cargs := []string{"-rlto"}
+		if s.Progress {
+			cargs = append(cargs, "--progress")
+		}
+		// the library client captures os.Stdout when it is created: give it /dev/null (the worker's stdout carries results)
+		savedStdout := os.Stdout
+		if devnull, derr := os.OpenFile(os.DevNull, os.O_WRONLY, 0); derr == nil {
+			os.Stdout = devnull
+			defer devnull.Close()
+		}
+		cl, err := rsyncclient.New(cargs, rsyncclient.DontRestrict(), rsyncclient.WithStderr(io.Discard))
+		os.Stdout = savedStdout
 		if err != nil {
 			return nil, err
 		}
@@ -483,8 +501,10 @@ func listFields(withUID bool) []fld {
 			fs = append(fs, fI("list.linklen", int64(len(link))), fB("list.link", []byte(link)))
 		}
 	}
-	ent(".", wirekit.SIFDIR|0o755, 4096, "", 0x41)
+	// (the wire order of a file list is free: the regular file comes first, so that a mutation of "list.<field>",
+	// which damages the FIRST field of that name, hits the entry whose data follows)
 	ent("f", wirekit.SIFREG|0o644, 1000, "", 0x40)
+	ent(".", wirekit.SIFDIR|0o755, 4096, "", 0x41)
 	ent("l", wirekit.SIFLNK|0o777, 1, "f", 0x40)
 	fs = append(fs, fY("list.end", 0))
 	if withUID {
